@@ -25,7 +25,7 @@ def variable_window_radii(
 ):
     radii = np.power(token_frequency, power - 1)
     radii /= np.sum(radii * token_frequency)
-    radii = np.append(radii, min(radii))
+    radii = np.append(radii, min(radii) if len(radii) > 0 else 0.0)
     if mask_index is not None:
         radii[mask_index] = 0.0
     result = radii * window_size
